@@ -67,3 +67,17 @@ Proof. exact Gen_addr.gen_ip_scanbracket_eq. Qed.
 Lemma tie_generated_ip_scanbracket_none : forall (s : Bytes.bytes) (ip : list Z), GenCommon.bytes_ok s -> ~ In 0%N s -> List.length ip = 4%nat -> Z.of_nat (List.length s) < 2 ^ 31 ->
   Smtpd.ip_scanbracket s = None -> GenCommon.retval (CGen.C_ip_scanbracket.run (S (S (List.length s))) (GenCommon.zs s ++ [0]) 0 ip) = Some 0.
 Proof. exact Gen_addr.gen_ip_scanbracket_none. Qed.
+(* addrparse() of today's qmail-smtpd.c, translated to Gallina by tools/c2gallina.py (gen/CGen.v, module C_addrparse), is the model's
+   addrparse - the address on which every MAIL FROM / RCPT TO decision of the session model is taken - for every argument, with
+   control/localiphost absent (liphostok = 0) and present (the host's own addresses g_ipme behind the oracle stub of ipme_is()):
+   same verdict (0 = syntax error / too long), same address left in the stralloc addr with its terminating NUL *)
+From NQ Require Tie.Gen_addrparse.
+Lemma tie_generated_addrparse_nolip : forall (g : Smtpd.scfg) (arg : Bytes.bytes) (addr0 : list Z) (len0 : Z) (ipme lh : list Z) (lhlen : Z),
+  GenCommon.bytes_ok arg -> ~ In 0%N arg -> Z.of_nat (List.length arg) < 2 ^ 31 -> Smtpd.g_liphost g = None ->
+  Gen_addrparse.ap_post g arg (CGen.C_addrparse.run (S (S (List.length arg))) (GenCommon.zs arg ++ [0]) 0 addr0 len0 0 ipme lh lhlen).
+Proof. exact Gen_addrparse.gen_addrparse_nolip. Qed.
+Lemma tie_generated_addrparse_lip : forall (g : Smtpd.scfg) (arg lh : Bytes.bytes) (addr0 : list Z) (len0 : Z),
+  GenCommon.bytes_ok arg -> ~ In 0%N arg -> Z.of_nat (List.length arg) < 2 ^ 31 -> Smtpd.g_liphost g = Some lh ->
+  GenCommon.bytes_ok lh -> Z.of_nat (List.length lh) < 2 ^ 31 -> Forall (fun me => List.length me = 4%nat /\ GenCommon.bytes_ok me) (Smtpd.g_ipme g) ->
+  Gen_addrparse.ap_post g arg (CGen.C_addrparse.run (S (S (List.length arg))) (GenCommon.zs arg ++ [0]) 0 addr0 len0 1 (Gen_addrparse.flat (Smtpd.g_ipme g)) (GenCommon.zs lh) (Z.of_nat (List.length lh))).
+Proof. exact Gen_addrparse.gen_addrparse_lip. Qed.
